@@ -215,7 +215,10 @@ func (factory transportFactory) New() core.Transport {
 		// a call is not idempotent: fasthttp sends a POST again, up to five times, when the
 		// server closes the connection without an answer - after it may have run the call.
 		// Retries are the business of the cluster plugin, which knows what may be repeated.
-		FastHTTPClient: fasthttp.Client{MaxIdemponentCallAttempts: 1},
+		// without a bound fasthttp sizes its buffer by the Content-Length a peer declares and
+		// panics, on a goroutine of its own, when that is beyond any slice: 2 GiB is what the
+		// other transports can carry
+		FastHTTPClient: fasthttp.Client{MaxIdemponentCallAttempts: 1, MaxResponseBodySize: 0x7FFFFFFF},
 	}
 }
 
